@@ -300,9 +300,11 @@ fn main() {
             "serde_compound" => {
                 let s = cmd["s"].as_str().unwrap_or("");
                 match catch_unwind(AssertUnwindSafe(|| {
-                    let c: Compound = s.parse().map_err(|e: anything::Error| e.to_string())?;
-                    let cb = serde_cbor::to_vec(&c).map_err(|e| e.to_string())?;
-                    let c2: Compound = serde_cbor::from_slice(&cb).map_err(|e| e.to_string())?;
+                    // the stage that fails is reported: a word that does not parse is not a serialisation matter, a unit that
+                    // parses and then does not encode / decode is
+                    let c: Compound = s.parse().map_err(|e: anything::Error| format!("parse: {}", e))?;
+                    let cb = serde_cbor::to_vec(&c).map_err(|e| format!("encode: {}", e))?;
+                    let c2: Compound = serde_cbor::from_slice(&cb).map_err(|e| format!("decode: {}", e))?;
                     Ok::<_, String>(json!({"cbor_eq": c == c2, "unit": unit_json(&c), "unit2": unit_json(&c2)}))
                 })) {
                     Ok(Ok(v)) => v,
